@@ -13,6 +13,9 @@ from gpmc import cfg, sched
 from gpmc.core import REPO, HarnessError
 
 
+MAX_POINTS_BOUND2 = 160
+
+
 def _outcome(fn):
     try:
         return ('ok', cfg.flat(fn()))
@@ -87,6 +90,7 @@ def evaluate(case, rec, calls, files, site, min_points=2):
                  expected=str(ref)[:300], case=case)
         return
     out = {'bad': [], 'outcomes': set(), 'nbad': 0}
+    bound = case['bound']
 
     def run_one_here(prefix):
         bodies = [(lambda f=calls[n](): _outcome(f)) for n in names]
@@ -122,18 +126,25 @@ def evaluate(case, rec, calls, files, site, min_points=2):
         st = {'executions': 1, 'max_points': len(ex['points'])}
     else:
         part = tuple(case['part']) if case.get('part') else None
+        # the schedule space grows with (scheduling points)^bound: two preemptions are explored where one execution has at
+        # most MAX_POINTS_BOUND2 scheduling points, one preemption otherwise (the bound actually used is reported)
+        if bound > 1:
+            probe = run_one([])
+            if len(probe['points']) > MAX_POINTS_BOUND2:
+                bound = 1
+                rec.outcome('threads-bound-reduced-to-1')
         try:
-            st = sched.explore(run_one, case['bound'], check, part=part)
+            st = sched.explore(run_one, bound, check, part=part)
         except sched.Divergence:
             # the library keeps state between executions (a replayed prefix took another path): every schedule in its own
             # forked interpreter
             out.update({'bad': [], 'outcomes': set(), 'nbad': 0})
             mode['forked'] = True
-            st = sched.explore(run_one, case['bound'], check, part=part)
+            st = sched.explore(run_one, bound, check, part=part)
         if st['max_points'] < min_points:
             raise HarnessError('no scheduling points in %r for calls %r: nothing was interleaved' % (files, names))
     rec.transitions += st['executions'] * len(names)
-    rec.nontriv((tuple(names), case['bound'], repr(case.get('part'))))
+    rec.nontriv((tuple(names), bound, repr(case.get('part'))))
     rec.state(('threads', tuple(names), len(out['outcomes'])))
     rec.dev('schedules', st['executions'])
     rec.dev('scheduling_points', st['max_points'])
@@ -145,7 +156,7 @@ def evaluate(case, rec, calls, files, site, min_points=2):
         rec.outcome('threads-bad')
     else:
         rec.outcome('threads-ok')
-    rec.sample({'calls': names, 'bound': case['bound'], 'schedules': st['executions'], 'scheduling_points': st['max_points'],
+    rec.sample({'calls': names, 'bound': bound, 'schedules': st['executions'], 'scheduling_points': st['max_points'],
                 'distinct_outcomes': len(out['outcomes'])})
 
 
